@@ -300,6 +300,38 @@ func init() {
 		HSpec{Pkg: swapPkg, Func: "VerifHarness_C13_SellWithOrders", Tier: "quick", Configs: []map[string]int64{cfg("orders", 0), cfg("orders", 1)}, Bounds: "concrete pool 10000/10000 BIP and concrete resting orders; taker amount symbolic in (0, 100000 BIP]"},
 		HSpec{Pkg: swapPkg, Func: "VerifHarness_C13_SellWithOrders", Tier: "thorough", Configs: []map[string]int64{cfg("orders", 2)}, Bounds: "as above with two order levels"})
 
+	// ---------------------------------------------------------- C11 export / import, C21 checks
+	{
+		c11 := HSpec{Pkg: "coreV2/state", Func: "VerifHarness_C11_ExportImport", Tier: "quick", Configs: []map[string]int64{cfg("concrete", 0)},
+			Bounds: "one populated state (3 accounts + multisig, 2 coins, 2 candidates x 3 stakes, validators, 3 frozen items incl. a pending move, 2 waitlist entries, halt and update votes, 2 used checks, 2 pools, 2 orders, price table); balances, frozen funds, waitlist, coin reserve, slashed symbolic; the first byte of one used-check hash symbolic (all 256 values); committed, exported, verified, imported into an empty chain, committed, exported again"}
+		add("C11", append([]string{
+			"export at one height of one populated universe (not every history): stakes, pool reserves and order volumes are concrete (they drive control flow / float-encoded keys); deleted candidates, commission votes, locked stakes, block-listed keys are outside the universe",
+			"the fields cmd/minter export adds from the app DB (emission, previous reward, versions) are set by the harness; amino JSON marshalling of the genesis is not executed",
+			"'the new chain behaves like the original for subsequent transactions' is checked through every module getter of the harness view, not by running transactions on both",
+		}, commonAssumptions...), c11)
+		add("C21", commonAssumptions, c11)
+		add("C07", commonAssumptions, c11)
+		redeem := func(kv ...interface{}) map[string]int64 {
+			return cfg(append([]interface{}{"concretePrices", 1}, kv...)...)
+		}
+		c21a := append([]string{
+			"check cryptography abstracted: the issuer is identified by R of the check signature (signer table, as for transactions); lock and proof are abstract signatures [marker, key id, signed hash]: Ecrecover yields the key's public key when the embedded hash is the one recovered against and an unrelated key otherwise (ECDSA recovery up to negligible probability); natively the same harness signs with real secp256k1 keys",
+			"keccak(rlp(x)) is an injective-by-construction digest of the RLP-visible content",
+			"harness choices: right/wrong password, proof for the redeemer/for another address, fresh/used check, issuer = another account or the redeemer itself, transaction gas coin equal to / different from the check's; check value, due block, chain id, nonces, gas price, balances symbolic",
+		}, txAssumptions...)
+		rq := HSpec{Pkg: txPkg, Func: "VerifHarness_C21_Redeem", Tier: "quick", Configs: []map[string]int64{
+			redeem("coin", 0, "gasCoin", 0), redeem("coin", 1, "gasCoin", 0), redeem("coin", 0, "gasCoin", 0, "used", 1),
+			redeem("coin", 0, "gasCoin", 0, "selfIssued", 1), redeem("coin", 0, "gasCoin", 0, "txGasCoinOther", 1), redeem("coin", 1, "gasCoin", 1),
+		}, Bounds: "one CheckTx+DeliverTx of RedeemCheck plus a second redemption attempt; concrete price table"}
+		rt := HSpec{Pkg: txPkg, Func: "VerifHarness_C21_Redeem", Tier: "thorough", Configs: []map[string]int64{
+			cfg("coin", 0, "gasCoin", 0), cfg("coin", 2, "gasCoin", 1), cfg("coin", 1, "gasCoin", 1, "used", 1), cfg("coin", 2, "gasCoin", 0, "selfIssued", 1),
+		}, Bounds: "as above with a symbolic price table / further coin combinations; pool-priced gas coins are outside (non-linear failed-fee path: see C07_FailedTxPoolFee)"}
+		for _, id := range []string{"C21", "C01", "C02", "C03", "C04", "C05", "C06", "C07", "C27"} {
+			add(id, c21a, rq)
+		}
+		add("C21", c21a, rt)
+	}
+
 	// ---------------------------------------------------------- C23 encodings and signature gates
 	{
 		c23a := append([]string{
@@ -325,7 +357,7 @@ func init() {
 			HSpec{Pkg: "rlp", Func: "VerifHarness_C23_EncodeDecodeUint", Tier: "quick", Configs: []map[string]int64{cfg("bits", 40)}, Bounds: "every integer below 2^40 (wider integers: decided in the decode direction by StreamUint; the encode->decode query is unknown in all back ends from 48 bits)"},
 			HSpec{Pkg: txPkg, Func: "VerifHarness_C23_RecoverGates", Tier: "quick", Opts: realTx, Bounds: "R, S unbounded non-negative, V < 2^500"},
 			HSpec{Pkg: txPkg, Func: "VerifHarness_C23_HashCoversFields", Tier: "quick", Bounds: "one changed field at a time, numeric deltas 1..200 symbolic"},
-			HSpec{Pkg: "coreV2/check", Func: "VerifHarness_C23_CheckRecoverGates", Tier: "quick", Bounds: "R, S unbounded non-negative, V < 2^500"},
+			HSpec{Pkg: "coreV2/check", Func: "VerifHarness_C23_CheckRecoverGates", Tier: "quick", Opts: gosym.HarnessOpts{RealBodies: []string{modulePath + "/coreV2/check.recoverPlain"}}, Bounds: "R, S unbounded non-negative, V < 2^500"},
 			HSpec{Pkg: "coreV2/check", Func: "VerifHarness_C23_CheckHashCoversFields", Tier: "quick", Bounds: "one changed field at a time"})
 		add("C07", c23a[:2],
 			HSpec{Pkg: "rlp", Func: "VerifHarness_C07_StreamList", Tier: "quick", Configs: ns(1, 2, 4, 6), Bounds: "every buffer of n bytes (<= 6): list header, two strings, list end; no panic"},
